@@ -189,6 +189,12 @@ impl Sys {
         false
     }
 
+    /// Is a task whose key contains `part` pending or running?
+    #[allow(dead_code)]
+    pub fn task_present(&self, part: &str) -> bool {
+        self.kv_all("tasks").keys().any(|k| k.contains(part))
+    }
+
     pub fn drain(&self) {
         let (_tx, rx) = mpsc::channel();
         krill::server::scheduler::verif_run(SlowKrillRuntime::new(self.krill.runtime().clone()), rx);
